@@ -101,7 +101,8 @@ def check(ctx):
     rb = ctx.body(RECV, rule=RO)
     if rb is not None:
         an = ctx.an(rb)
-        gt = flow.Graph(rb, flags=[(1, "keep_alive")], pinned={(1, "keep_alive"): True})
+        kf = ctx.captured_flag(rb, "keep_alive")
+        gt = ctx.graph_with(rb, [kf], pinned={kf: True})
         ev = events.extract(ctx, rb)
         sends = [(bb, e) for bb, es in ev.items() for _, e, _ in es if e == "send:configuration::clientbound::KeepAlive"]
         ctx.exact(RO, "KeepAlive send in receive_packet", len(sends), 1, rb.loc)
